@@ -1109,7 +1109,10 @@ def expr_fn(
             return -ret
         if tok == "+":
             tok = get_token()
-            return parse_atom(tok)
+            return parse_unary(tok)
+        if tok in unary_fns:
+            # e.g. "2 e abs -1": a function as the right operand of "e"
+            return parse_unary_fn(tok)
         ret = parse_atom(tok)
         return ret
 
